@@ -45,11 +45,14 @@ def check_views(lines, prefix_cols, prefix_view, corr, cid, fields, upto):
         elif rest.startswith('item['):
             j = int(rest[5:-1]); exp = d.get('item[%d]' % (offs[i] + j)) if offs else None
         elif rest.endswith('.follower'):
-            exp = 'none'
+            exp = d.get(rest)              # 'none' exactly when the port has no follower columns; never because a row is null
         else:
             continue
         if exp != v:
-            corr.oracle_failures.append((cid, 'row view %s = %s but the columns hold %s at that index' % (k, v[:80], (exp or 'nothing')[:80]),
+            what = ('row view %s = none although the port has follower columns (a null follower row is a stored row, not a missing record)' % k
+                    if rest.endswith('.follower') and exp is None else
+                    'row view %s = %s but the columns hold %s at that index' % (k, v[:80], (exp or 'nothing')[:80]))
+            corr.oracle_failures.append((cid, what,
                                          {'mode': 'view', 'fields': fields, 'replay_hex': fields[0], 'view_line': l[:200], 'rerun': 'pvh view <file: x <replay_hex> %s>' % fields[1]}))
             return False
     return True
